@@ -90,13 +90,25 @@ theorem new_group_announced (cfg : Cfg α κ β) (hrefl : ∀ k, cfg.keyEq k k =
   · rw [e']
     exact (OutExt_pushElem cfg _ _ x).mem (announce_mem cfg (addGroup s k) s.groups.length k ho)
 
-/-- **group_routes_to_key.** An arriving element `x` (source subscribed) with key `k` and mapped value `v`
+/- FULL STATEMENT (DESIGN.md `C19.group_routes_to_key`) — **false of the code as written**, see the known finding
+   `C19-sync-duration-drops-element` and the decided counter-example `sync_duration_drops_element` below:
+
+     for every arriving element x (source subscribed) with key k and mapped value v (mappers not raising):
+       ∃ g, LiveFor cfg s' k g ∧ (∀ j, LiveFor cfg s' k j → j = g) ∧
+            wlogOf s' g = wlogOf s g ++ [.next v] ∧ (∀ j, j ≠ g → wlogOf s' j = wlogOf s j)
+
+   What is missing in the proved `_partial` version: the case where the group is *created by this element* and its
+   duration observable fires synchronously inside its own subscribe call (`cfg.dsync g ≠ none`, e.g. `rx.empty()`):
+   `_groupbyuntil.py` subscribes the duration before `writer.on_next(element)`, the group expires first and the
+   element reaches no group.  Everything else (existing groups, new groups with asynchronous durations — including
+   durations firing later in the same instant —, all tie orders, disposals, re-created groups) is covered. -/
+/-- **group_routes_to_key_partial.** An arriving element `x` (source subscribed) with key `k` and mapped value `v`
 is appended (`next v`, at the end = arrival order) to the writer log of exactly one group `g`; that group is
 the unique live group whose key equals `k` (the existing one, or the one created for this element); no other
 group's log changes.  Hypotheses: the mappers involved do not raise, and — only when the group has to be
 created for this element — its duration does not fire synchronously inside its own subscription
 (`sync_duration_drops_element` below shows that the hypothesis is necessary). -/
-theorem group_routes_to_key (cfg : Cfg α κ β) (hrefl : ∀ k, cfg.keyEq k k = true)
+theorem group_routes_to_key_partial (cfg : Cfg α κ β) (hrefl : ∀ k, cfg.keyEq k k = true)
     (hsymm : ∀ a b, cfg.keyEq a b = true → cfg.keyEq b a = true)
     (htrans : ∀ a b c, cfg.keyEq a b = true → cfg.keyEq b c = true → cfg.keyEq a c = true)
     (evs : List (Ev α)) (x : α) (k : κ) (v : β) (hk : cfg.keyMapper x = .ok k) (hv : cfg.elemMapper x = .ok v) :
@@ -351,7 +363,7 @@ example : view (run (exCfg fun _ => none) init
 example : ((run (exCfg fun _ => none) init [.src (.next 1), .src (.next 2), .src .completed]).out.filterMap fun e =>
     match e with | .outer n => some n | _ => none) = [.next (0, 1), .next (1, 0), .completed] := by decide
 
-/-- **sync_duration_drops_element** (why `group_routes_to_key` needs `dsync = none` for a new group): a duration
+/-- **sync_duration_drops_element** (why `group_routes_to_key_partial` needs `dsync = none` for a new group): a duration
 that fires inside its own subscribe call expires the group before the creating element is pushed — the element
 reaches no group at all (replayed on the real code with `duration_mapper = lambda g: reactivex.empty()`). -/
 theorem sync_duration_drops_element :
